@@ -90,7 +90,16 @@ def cmdline(argv=None):
     except:
         _exit()
     else:
-        if output_file:
+        if isinstance(rendered, bytes):
+            # with an output encoding the template renders to bytes
+            if output_file:
+                with open(output_file, "wb") as f:
+                    f.write(rendered)
+            else:
+                sys.stdout.flush()
+                sys.stdout.buffer.write(rendered)
+                sys.stdout.buffer.flush()
+        elif output_file:
             open(output_file, "wt", encoding=output_encoding).write(rendered)
         else:
             sys.stdout.write(rendered)
